@@ -782,10 +782,18 @@ class BaseEvent(BaseModel, Generic[T_EventResultType]):
     @property
     def event_bus(self) -> 'EventBus':
         """Get the EventBus that is currently processing this event"""
-        from bubus.service import EventBus, inside_handler_context
+        from bubus.service import EventBus, _current_event_context, _current_eventbus_context, inside_handler_context
 
         if not inside_handler_context.get():
             raise AttributeError('event_bus property can only be accessed from within an event handler')
+
+        # Inside a handler of this very event the bus running the handler is known exactly.
+        # (event_path[-1] is only the bus the event was forwarded to most recently: once a handler of bus A has
+        # forwarded the event to bus B, the remaining handlers of bus A would otherwise be told they run on B.)
+        current_event = _current_event_context.get()
+        current_bus = _current_eventbus_context.get()
+        if current_bus is not None and current_event is not None and current_event.event_id == self.event_id:
+            return current_bus
 
         # The event_path contains all buses this event has passed through
         # The last one in the path is the one currently processing
